@@ -4,6 +4,7 @@
 //!   --gens a,b,..   subset of random_circuit,hidden_shift,pauli_gadget,stab_state,surface_code (default: all)
 //!   --seeds N       seeds per parameter setting (base + 0 .. base + N-1, base derived from --seed)
 //!   --thorough      larger grids (8-qubit hidden shift, more weight ranges)
+//!   --hs-many N     hidden shift: N further seeds for the two cheapest 6-qubit settings (rare draws such as the all-zero shift)
 //!
 //! One group = one generator x one parameter setting.  Every build is done twice with identical seed and
 //! parameters (a fresh builder, then the same builder re-seeded, for circuits also a second fresh builder);
@@ -403,6 +404,21 @@ pub fn record(args: &[String], seed: u64, tr: &mut Tr) -> Value {
                         let full = i == 0 && q == 6 && (thorough || cd <= 1);
                         cx.build("hidden_shift", "", s, &params, i == 0, || hidden_shift(s, q, cd, nccz, full));
                     }
+                }
+            }
+        }
+        // rare draws (seed C19_e): events of probability 2^-qubits such as the all-zero (or all-one) shift string only occur in a
+        // sample of several hundred instances; the two cheapest settings are therefore built for many more seeds (--hs-many N)
+        let many: u64 = arg_num(args, "--hs-many", 0);
+        if many > 0 {
+            for (cd, nccz) in [(0usize, 0usize), (1, 1)] {
+                let params = json!({"qubits": 6, "clifford_depth": cd, "n_ccz": nccz});
+                for i in 0..many {
+                    if i % 50 == 0 {
+                        cx.begin("hidden_shift", &params);
+                    }
+                    let s = base + 10_000 + i;
+                    cx.build("hidden_shift", "", s, &params, false, || hidden_shift(s, 6, cd, nccz, false));
                 }
             }
         }
